@@ -112,7 +112,7 @@ def gen_crowded(rnd):
     for _ in range(rnd.randint(1, 4)):
         l, r = rnd.sample(range(n), 2)
         cons.append([1, rnd.randint(0, 1), l, r, rnd.choice([0, 10, 25, 100, 200]), 0])
-    return {'nodes': nodes, 'edges': edges, 'flags': 3 | (8 if rnd.random() < 0.2 else 0), 'cons': cons, 'groups': [], 'clusters': []}
+    return {'nodes': nodes, 'edges': edges, 'flags': 3 | (8 if rnd.random() < 0.2 else 0) | (32 if rnd.random() < 0.5 else 0), 'cons': cons, 'groups': [], 'clusters': []}
 
 
 def write_cases(path, cases):
